@@ -112,6 +112,19 @@ def c16Table : String :=
     s!"{b} {w} conc={Driver.b t.concurrent} isend={Driver.b t.itemSend} isync={Driver.b t.itemSync} send={Driver.b (Traits.isSend t)} sync={Driver.b (Traits.isSync t)}"
   ";".intercalate (Traits.allTys.map row)
 
+def g3Table : String :=
+  let loc : Loc → String
+    | .prodIdx => "prodIdx" | .workIdx => "workIdx" | .consIdx => "consIdx" | .prodAlive => "prodAlive" | .workAlive => "workAlive"
+    | .consAlive => "consAlive" | .aliveIters => "aliveIters" | .other s => s
+  let kind : AccKind → String
+    | .load => "load" | .store => "store" | .fetchAdd | .fetchSub => "rmw" | .read => "read" | .write => "write" | .addAssign | .subAssign => "rmwplain"
+  let ord : MemOrd → String
+    | .relaxed => "relaxed" | .acquire => "acquire" | .release => "release" | .acqRel => "acqrel" | .seqCst => "seqcst" | .plain => "plain"
+  let all := Gen.concAcc.prodIndex ++ Gen.concAcc.workIndex ++ Gen.concAcc.consIndex ++ Gen.concAcc.setProdIndex ++ Gen.concAcc.setWorkIndex ++
+    Gen.concAcc.setConsIndex ++ Gen.concAcc.prodAlive ++ Gen.concAcc.workAlive ++ Gen.concAcc.consAlive ++ Gen.concAcc.setProdAlive ++
+    Gen.concAcc.setWorkAlive ++ Gen.concAcc.setConsAlive ++ Gen.concAcc.releaseIter
+  ";".intercalate (all.map fun a => s!"{kind a.kind} {loc a.loc} {ord a.ord}")
+
 def handle (c : Option Case) (line : String) : Option Case × String :=
   let ws := (line.trimAscii.toString.splitOn " ").filter (· ≠ "")
   match ws with
@@ -124,6 +137,7 @@ def handle (c : Option Case) (line : String) : Option Case × String :=
     | _, _, _, _, _ => (c, "bad-init")
   | [] => (c, "")
   | ["c16"] => (c, c16Table)
+  | ["g3"] => (c, g3Table)
   | "poll" :: rest =>
     match c, parseOp rest with
     | some c, some op =>
